@@ -285,6 +285,72 @@ def ws_text(rng, ids, pids, ch, place, nx=0):
     return text, rows, comments
 
 
+# --- the same path read again --------------------------------------------------------------------------------------------------------------
+# "for all texts … for all read options": what a read returns is a function of the bytes the file holds when it is read and of the options of
+# THAT call — whatever the process has read before, from this path or from any other. A program that re-exports a morphology and reads it
+# back, or a lazily loading population whose files are updated while it is in use, reads one path several times. A case of this family is a
+# SEQUENCE of reads of one path by one entry point in one process; between two reads the file is left as it is, gets other rows, is stored
+# in another encoding (same text or other text), gets a malformed line, or loses one. The `encoding` option is absent (utf-8 files), names
+# the encoding the file has at that moment, or is 'detect' (files whose encoding a detector identifies from the bytes: ASCII, utf-8 with
+# multi-byte text, the BOM-marked encodings). Every read of the sequence is judged like a single read of that file.
+REREAD_OPTS = ["default", "named", "detect"]
+REREAD_STORES = {"default": ["utf-8"], "named": ["utf-8", "utf-16", "latin-1", "cp1252", "utf-32"], "detect": ["utf-8", "utf-16", "ascii", "utf-8-sig", "utf-32"]}
+NOTES_LATIN = [" Zellkörper é ü", " reconstrucción señal niño", " größe in µm ± 0.5", " tracé à la main"]
+NOTES_WIDE = [" 神经元 形态 重建", " нейрон дендрит аксон", " νευρώνας δενδρίτης", " ニューロン 樹状突起"]
+NOTES_ASCII = [" traced by hand", " neuron 7", " x y z in um"]
+
+
+def reread_steps(rng, opt, k, force):
+    """2–4 states of one file. `force`: a change that the sequence contains for certain ('encoding' | 'rows' | 'malformed' | None)"""
+    stores = REREAD_STORES[opt]
+    n_steps = rng.choice([2, 2, 3, 4])
+    steps, prev = [], None
+    forced_at = rng.randrange(1, n_steps)
+    for j in range(n_steps):
+        change = set()
+        if prev is not None:
+            if rng.random() < 0.6:
+                change.add("rows")
+            if len(stores) > 1 and rng.random() < 0.6:
+                change.add("encoding")
+            if j == forced_at and force in ("rows", "encoding") and (force == "rows" or len(stores) > 1):
+                change.add(force)
+        if prev is None or "rows" in change:
+            pids = gen.parents_sorted(rng, rng.choice([1, 2, 4, 7]), gen.pick_shape(rng, k + j))
+            base = rng.choice([0, 1, 1, 5])
+            body, rows, comments = make_text(rng, [i + base for i in range(len(pids))], [-1 if p < 0 else p + base for p in pids])
+        else:
+            body, rows, comments = prev["body"], prev["rows"], prev["body_comments"]
+        store = rng.choice([e for e in stores if prev is None or e != prev["store"]] or stores) if prev is None or "encoding" in change else prev["store"]
+        def fits(t):
+            try:
+                t.encode(store)
+                return True
+            except UnicodeEncodeError:
+                return False
+
+        if prev is not None and "rows" not in change and (store == "ascii") == (prev["store"] == "ascii") and fits(prev["note"]):
+            note = prev["note"]                      # the same text, left as it is or re-encoded
+        else:
+            note = rng.choice(NOTES_ASCII if store == "ascii" else (NOTES_LATIN if store in ("latin-1", "cp1252") or rng.random() < 0.4 else NOTES_WIDE))
+        bad = None
+        if (force == "malformed" and j == forced_at) or rng.random() < 0.15:
+            bad = rng.choice(MALFORM)
+        text = "#" + note + ("\r\n" if "\r\n" in body else "\n") + body
+        step = {"body": body, "body_comments": comments, "note": note, "rows": rows, "comments": [note] + comments, "store": store, "bad": bad,
+                "changed": sorted(change)}
+        if bad:
+            ls = text.split("\n")
+            pos = rng.choice([0, len(ls) // 2, max(0, len(ls) - 1)])
+            step["bad_pos"] = "first" if pos == 0 else ("middle" if pos == len(ls) // 2 else "last")
+            ls.insert(pos, malformed_line(rng, bad))
+            text = "\n".join(ls)
+        step["text"] = text
+        steps.append(step)
+        prev = step
+    return steps
+
+
 class Read(Suite):
     name = "c02.read"
 
@@ -437,12 +503,24 @@ class Read(Suite):
                 else:
                     case.update({"mode": "entry", "entry": via, "source": rng.choice(["bytes", "path"]) if via == "tree" else "path", "reset_index": True})
                 out.append(case)
+        # the same path read again (file unchanged / other rows / re-encoded / malformed line added or removed in between), through every entry
+        # point, with every way of giving the encoding
+        combos = [(e, o, f) for e in ENTRIES for o, f in [("default", rng.choice(["rows", "malformed", None])), ("named", "encoding"), ("detect", "encoding"),
+                                                          ("detect", rng.choice(["encoding", "rows", None]))]]
+        for rep in range(4 if big else 1):
+            for entry, opt, force in combos:
+                steps = reread_steps(rng, opt, k, force); k += 1
+                ch = sorted({c for st in steps for c in st["changed"]} | ({"malformed"} if any(st["bad"] for st in steps) else set()))
+                out.append({"class": f"reread/{entry}/{opt}/{'+'.join(ch) or 'unchanged'}", "mode": "reread", "entry": entry, "opt": opt, "steps": steps,
+                            "rows": steps[0]["rows"], "text": steps[0]["text"]})
         return out
 
     def run(self, case):
         from swcgeom.core import Population, Tree
         from swcgeom.core.swc_utils import read_swc
 
+        if case["mode"] == "reread":
+            return self.run_reread(case)
         text = case["text"]
         enc = case.get("encoding")
         data = text.encode("utf-8" if enc in (None, "detect") else enc)
@@ -519,56 +597,73 @@ class Read(Suite):
     def run_entry(self, case, data, kw):
         """one file read through one of the entry points; an exception of the READ is part of the result ("raised"), anything else that
         goes wrong here is the harness's (reported as such, never taken for the loud failure the property asks for)"""
+        if case.get("bad") == "bytes":
+            off = case["bad_off"]
+            data = data[:off] + bytes.fromhex(case["bad_hex"]) + data[off + case["bad_del"]:]
+        tmp = tempfile.mkdtemp(prefix="c02_")
+        try:
+            return self.read_via(case["entry"], tmp, data, kw, case["source"] == "bytes")
+        finally:
+            shutil.rmtree(tmp, ignore_errors=True)
+
+    def run_reread(self, case):
+        """the states of one file written to ONE path one after the other, each read by the same entry point in this process"""
+        tmp = tempfile.mkdtemp(prefix="c02_")
+        try:
+            out = []
+            for st in case["steps"]:
+                kw = {"reset_index": True}
+                if case["opt"] != "default":
+                    kw["encoding"] = "detect" if case["opt"] == "detect" else st["store"]
+                out.append(self.read_via(case["entry"], tmp, st["text"].encode(st["store"]), kw, False, other_encoding=st["store"]))
+            return {"steps": out, "via": case["entry"]}
+        finally:
+            shutil.rmtree(tmp, ignore_errors=True)
+
+    def read_via(self, entry, tmp, data, kw, from_bytes, other_encoding="ascii"):
+        """`data` stored as <tmp>/p/b.swc (next to other members of the collections) and read through `entry`"""
         from swcgeom.core import Population, Populations, Tree
         from swcgeom.core.population import LazyLoadingTrees
         from swcgeom.core.swc_utils import read_swc
 
-        if case.get("bad") == "bytes":
-            off = case["bad_off"]
-            data = data[:off] + bytes.fromhex(case["bad_hex"]) + data[off + case["bad_del"]:]
-        entry = case["entry"]
-        other = b"1 1 0 0 0 1 -1\n2 3 1 0 0 1 1\n"
-        tmp = tempfile.mkdtemp(prefix="c02_")
-        try:
-            d1, d2 = os.path.join(tmp, "p"), os.path.join(tmp, "q")
-            os.mkdir(d1); os.mkdir(d2)
-            path = os.path.join(d1, "b.swc")
-            for fn, content in [(path, data), (os.path.join(d1, "a.swc"), other), (os.path.join(d2, "b.swc"), other), (os.path.join(d2, "c.swc"), other)]:
-                with open(fn, "wb") as f:
-                    f.write(content)
-            src = io.BytesIO(data) if case["source"] == "bytes" else path
-            # building a collection may already read a member, so it belongs to the read
-            def member(pop):
-                return [os.path.basename(x) for x in pop.trees.swcs].index("b.swc")
+        other = "1 1 0 0 0 1 -1\n2 3 1 0 0 1 1\n".encode(other_encoding)
+        d1, d2 = os.path.join(tmp, "p"), os.path.join(tmp, "q")
+        os.makedirs(d1, exist_ok=True); os.makedirs(d2, exist_ok=True)
+        path = os.path.join(d1, "b.swc")
+        for fn, content in [(path, data), (os.path.join(d1, "a.swc"), other), (os.path.join(d2, "b.swc"), other), (os.path.join(d2, "c.swc"), other)]:
+            with open(fn, "wb") as f:
+                f.write(content)
+        src = io.BytesIO(data) if from_bytes else path
+        # building a collection may already read a member, so it belongs to the read
+        def member(pop):
+            return [os.path.basename(x) for x in pop.trees.swcs].index("b.swc")
 
-            def both():
-                pops = Populations.from_swc([d1, d2], **kw)      # the files both directories have: b.swc
-                assert len(pops) == 1, len(pops)
-                return pops
+        def both():
+            pops = Populations.from_swc([d1, d2], **kw)      # the files both directories have: b.swc
+            assert len(pops) == 1, len(pops)
+            return pops
 
-            read = {
-                "population": lambda: (lambda pop: pop[member(pop)])(Population.from_swc(d1, **kw)),
-                "population-iter": lambda: (lambda pop: list(pop)[member(pop)])(Population.from_swc(d1, **kw)),
-                "lazy-list": lambda: Population(LazyLoadingTrees([path], **kw))[0],
-                "populations": lambda: both()[0][0],
-                "populations-chain": lambda: both().to_population()[0],
-                "tree": lambda: Tree.from_swc(src, **kw),
-                "read_swc": lambda: read_swc(src, **kw),
-            }[entry]
-            with warnings.catch_warnings(record=True) as w:
-                warnings.simplefilter("always")
-                try:
-                    got = read()
-                except Exception as e:  # noqa: BLE001 - the oracle decides
-                    return {"raised": type(e).__name__, "msg": str(e)[:200], "via": entry}
-            ws_ = [str(x.message)[:60] for x in w]
-            if entry == "read_swc":
-                df, comments = got
-                return {"df": {c: df[c].tolist() for c in df.columns}, "comments": list(comments), "warnings": ws_, "via": "read_swc"}
-            return {"df": {c: np.asarray(got.get_ndata(c)).tolist() for c in ["id", "type", "x", "y", "z", "r", "pid"]},
-                    "comments": list(got.comments), "warnings": ws_, "via": entry}
-        finally:
-            shutil.rmtree(tmp, ignore_errors=True)
+        read = {
+            "population": lambda: (lambda pop: pop[member(pop)])(Population.from_swc(d1, **kw)),
+            "population-iter": lambda: (lambda pop: list(pop)[member(pop)])(Population.from_swc(d1, **kw)),
+            "lazy-list": lambda: Population(LazyLoadingTrees([path], **kw))[0],
+            "populations": lambda: both()[0][0],
+            "populations-chain": lambda: both().to_population()[0],
+            "tree": lambda: Tree.from_swc(src, **kw),
+            "read_swc": lambda: read_swc(src, **kw),
+        }[entry]
+        with warnings.catch_warnings(record=True) as w:
+            warnings.simplefilter("always")
+            try:
+                got = read()
+            except Exception as e:  # noqa: BLE001 - the oracle decides
+                return {"raised": type(e).__name__, "msg": str(e)[:200], "via": entry}
+        ws_ = [str(x.message)[:60] for x in w]
+        if entry == "read_swc":
+            df, comments = got
+            return {"df": {c: df[c].tolist() for c in df.columns}, "comments": list(comments), "warnings": ws_, "via": "read_swc"}
+        return {"df": {c: np.asarray(got.get_ndata(c)).tolist() for c in ["id", "type", "x", "y", "z", "r", "pid"]},
+                "comments": list(got.comments), "warnings": ws_, "via": entry}
 
     def oracle(self, case, res):
         try:
@@ -579,6 +674,25 @@ class Read(Suite):
     def _oracle(self, case, res):
         rows = case["rows"]
         mode = case["mode"]
+        if mode == "reread":
+            # every read of the sequence is a read of the text the file holds at that moment: judged like a single read through this entry
+            if "exc" in res:
+                return [("entry-harness-error", f"the harness failed before/after a read via {case['entry']}: {res['exc']}: {res.get('msg')}")]
+            steps = case["steps"]
+            if not isinstance(res.get("steps"), list) or len(res["steps"]) != len(steps):
+                return [("malformed-output", f"{len(steps)} reads, results {str(res)[:200]}")]
+            out = []
+            for j, (st, r) in enumerate(zip(steps, res["steps"])):
+                sub = {"mode": "entry", "entry": case["entry"], "rows": st["rows"], "comments": st["comments"], "n_extra": 0, "reset_index": True,
+                       "bad": st["bad"], "bad_pos": st.get("bad_pos"), "text": st["text"]}
+                hist = " -> ".join(f"{s_['store']}{' (malformed line)' if s_['bad'] else ''}" for s_ in steps[: j + 1])
+                opt = {"default": "no encoding option", "named": f"encoding={st['store']!r}", "detect": "encoding='detect'"}[case["opt"]]
+                for key, msg in self.oracle(sub, r):
+                    out.append((key, f"read #{j + 1} of one path, {opt}; the file was written as {hist}"
+                                     f"{' (changed since the last read: ' + ', '.join(st['changed']) + ')' if st['changed'] else ''}: {msg}"))
+                if out:
+                    return out
+            return out
         if mode == "entry":
             if "exc" in res:
                 return [("entry-harness-error", f"the harness failed before/after the read via {case['entry']}: {res['exc']}: {res.get('msg')}")]
@@ -675,10 +789,13 @@ class Read(Suite):
         return out
 
     def nontrivial(self, case, res):
+        if case["mode"] == "reread":
+            return any(st["changed"] for st in case["steps"])
         return len(case["rows"]) >= 2
 
     def klass(self, case, res):
-        return case["class"] + ("/raised" if "exc" in res or "raised" in res else "")
+        raised = "exc" in res or "raised" in res or any(isinstance(r, dict) and "raised" in r for r in (res.get("steps") or []) if case.get("mode") == "reread")
+        return case["class"] + ("/raised" if raised else "")
 
 
 ALPHABET = " \t0123456789.+-eE#,x\n\r"
